@@ -2,6 +2,7 @@
    Subject: Model/TokenFlow.v (tied to /repo by trace validation). *)
 From Coq Require Import List Arith Bool.
 From LokyV Require Import Model.TokenFlow Proofs.TokenFlowInv Proofs.TokenFlowThm.
+From LokyV Require Lib.WorkerLib Gen.Worker Proofs.WorkerThm.
 Import ListNotations.
 
 (* every step other than the pool-wide failure of terminate_broken changes at most the future of the work id
@@ -39,3 +40,22 @@ Example C04_example :
   | None => False
   end.
 Proof. vm_compute. repeat split; reflexivity. Qed.
+
+(* ---- inside the worker (its main loop is Gen/Worker.v, regenerated from _process_worker) ---- *)
+(* a call item taken from the queue yields exactly one message for its future -- the result, the task's exception, or the error of
+   sending the result -- and the worker goes on to the next item, whatever the task raised (BaseException included) *)
+Theorem C04_worker_contains_task_failures :
+  forall e, WorkerLib.get e = WorkerLib.GItem ->
+    WorkerLib.count WorkerLib.is_result (WorkerLib.acts (WorkerThm.it e)) = 1 /\
+    WorkerLib.count WorkerLib.is_run (WorkerLib.acts (WorkerThm.it e)) = 1 /\
+    WorkerLib.wfin (WorkerThm.it e) = (if WorkerLib.psutil e && WorkerLib.leak e then WorkerLib.FReturn else WorkerLib.FNext).
+Proof.
+  intros e G. destruct (WorkerThm.one_item_one_message e) as [A B]. rewrite G in A, B. simpl in A, B.
+  repeat split; try assumption. apply WorkerThm.task_failure_is_contained, G.
+Qed.
+Print Assumptions C04_worker_contains_task_failures.
+
+Theorem C04_worker_sends_nothing_without_an_item :
+  forall e, WorkerLib.get e <> WorkerLib.GItem -> WorkerLib.count WorkerLib.is_result (WorkerLib.acts (WorkerThm.it e)) = 0.
+Proof. intros e G. destruct (WorkerThm.one_item_one_message e) as [A _]. destruct (WorkerLib.get e); simpl in A; congruence. Qed.
+Print Assumptions C04_worker_sends_nothing_without_an_item.
